@@ -399,6 +399,30 @@ def adversarial_documents(rng, desc, n):
                 parts.append("%s: %s" % (a["name"], lit))
         return "(" + ", ".join(parts) + ")" if parts else ""
 
+    # same response key through an object-typed and an abstract-typed fragment, both orders
+    for it in desc["types"]:
+        if it["kind"] != "interface":
+            continue
+        impls = [o for o in desc["types"] if o["kind"] == "object" and it["name"] in o.get("interfaces", [])]
+        roots = [f for f in rf if ty_base(f["type"]) == it["name"] or
+                 (kind_of(desc, ty_base(f["type"])) == "union" and any(o["name"] in desc_type(desc, ty_base(f["type"]))["members"] for o in impls))]
+        if not impls or not roots:
+            continue
+        o = rng.choice(impls)
+        q = rng.choice(roots)
+
+        def leafs(t):
+            return [f for f in t["fields"] if kind_of(desc, ty_base(f["type"])) in ("scalar", "enum")
+                    and not any(a["type"][0] == "nonNull" and a.get("default") is None for a in f.get("args") or [])]
+        lo, li = leafs(o), leafs(it)
+        if not lo or not li:
+            continue
+        f1, f2 = rng.choice(lo), rng.choice(li)
+        a = "... on %s { n: %s }" % (o["name"], f1["name"])
+        b = "... on %s { n: %s }" % (it["name"], f2["name"])
+        for lab, parts in (("same-key-object-then-abstract", (a, b)), ("same-key-abstract-then-object", (b, a))):
+            out.append((lab, "{ %s%s { __typename %s %s } }" % (q["name"], req_args(q), parts[0], parts[1]), {}))
+        break
     for _ in range(n):
         k = rng.randint(0, 13)
         any_f = rng.choice(rf)
